@@ -71,7 +71,10 @@ def matrix(args):
         if not os.path.exists(os.path.join(d, "meta.json")) or (ids and sid not in ids):
             continue
         target = json.load(open(os.path.join(d, "meta.json")))["breaks_property"]
-        props = sorted(set(claimed()) | {target}) if allp else [target]
+        if target == "none":
+            props = sorted(claimed())
+        else:
+            props = sorted(set(claimed()) | {target}) if allp else [target]
         rc, out = sh(["git", "-C", "/repo", "apply", os.path.join(d, "patch.diff")])
         if rc != 0:
             print(sid, "patch does not apply:", out)
